@@ -20,6 +20,7 @@ import (
 	"context"
 	"errors"
 	"fmt"
+	"io"
 	stdnet "net"
 	"os"
 	"os/exec"
@@ -35,6 +36,7 @@ import (
 	"github.com/containerd/ttrpc"
 	"google.golang.org/grpc/codes"
 	"google.golang.org/grpc/status"
+	"google.golang.org/protobuf/proto"
 )
 
 const (
@@ -701,6 +703,12 @@ func isFatalError(err error) bool {
 	case errors.Is(err, ttrpc.ErrProtocol):
 		return true
 	case errors.Is(err, context.DeadlineExceeded):
+		return true
+	case errors.Is(err, io.ErrUnexpectedEOF):
+		// connection cut in the middle of a frame
+		return true
+	case errors.Is(err, proto.Error):
+		// the plugin's reply could not be decoded
 		return true
 	}
 	return false
